@@ -245,10 +245,18 @@ def readers(ctx, rng, xr, ws):
     ds, t = getattr(N, model)(rng)
     ds.attrs["source"] = "caller"
     via = str(rng.choice(["read_dataset", "from"]))
+    names = "native"
+    if model in ("ww3", "ncswan") and rng.random() < 0.35:
+        # a dataset whose variables already carry the wavespectra names (e.g. renamed by the caller,
+        # or written by to_ww3 and reopened with a mapping): nothing is left to rename inside the helper
+        mp = {"ww3": {"frequency": "freq", "direction": "dir", "station": "site", "longitude": "lon", "latitude": "lat", "wnd": "wspd", "wnddir": "wdir"},
+              "ncswan": {"frequency": "freq", "direction": "dir", "points": "site", "density": "efth", "longitude": "lon", "latitude": "lat", "depth": "dpt"}}[model]
+        ds = ds.rename({k: v for k, v in mp.items() if k in ds.variables or k in ds.dims})
+        via, names = "from", "already-wavespectra"
     if rng.random() < 0.3:
         ds = ds.chunk()
     fn = {"ww3": ww3.from_ww3, "ncswan": ncswan.from_ncswan, "wwm": wwm.from_wwm, "era5": era5.from_era5, "ndbc": ndbc.from_ndbc}[model]
-    key = "%s|%s|%s" % (model, via, "dask" if ds.chunks else "numpy")
+    key = "%s|%s|%s|%s" % (model, via, "dask" if ds.chunks else "numpy", names)
 
     def call():
         r = dmod.read_dataset(ds) if via == "read_dataset" else fn(ds)
